@@ -287,7 +287,7 @@ func init() {
 	core.Register(&core.Prop{
 		ID:    "C11",
 		Level: "exploration",
-		Rule:  "every XML document with 1-3 elements (thorough: 4, reduced alphabets) over names {a,b,p:a}, attributes {none,k,p:k,k+p:k}, text before/after the children x every expression of the grammar (11 axes + attribute x node tests {a,b,p:a,*,text(),node()} x 17 predicates incl. positional, last(), attribute, string-value, count, name; 60 abbreviated/union/function expressions; thorough: 2-step paths) x every context node (document node, every element and text node); idr.MatchAll results must equal, in number, order, identity (child-index path) and string-value, the results of the same compiled expression over a plain reference DOM with a straightforward navigator; distinct by (document, expression, context)",
+		Rule:  "every XML document with 1-3 elements (thorough: 4, reduced alphabets) over names {a,b,p:a}, attributes {none,k,p:k,k+p:k}, text before/after the children x every expression of the grammar (11 axes + attribute x node tests {a,b,p:a,*,text(),node()} x 17 predicates incl. positional, last(), attribute, string-value, count, name; 60 abbreviated/union/function expressions; 20 expressions whose string literals contain runs of spaces, tabs or line breaks over documents whose values differ only in white space; thorough: 2-step paths) x every context node (document node, every element and text node); idr.MatchAll results must equal, in number, order, identity (child-index path) and string-value, the results of the same compiled expression over a plain reference DOM with a straightforward navigator; distinct by (document, expression, context)",
 		Assumptions: []string{
 			"the xpath engine (antchfx/xpath v1.1.11) is shared; the reference is its straightforward DOM binding (ref/dom.go, modelled on antchfx/xmlquery's navigator, whose context node is the navigator root), built from encoding/xml raw tokens",
 			"documents bind every namespace URI to one prefix (the two-prefix deviation is C08's known finding)",
@@ -333,6 +333,46 @@ func init() {
 					}
 				}
 				return !c.TimeUp()
+			}
+			// string literals with white space that matters (runs of spaces, tab, line break), against values
+			// that differ only in it; each expression several times in a row (cached and re-used compiled forms)
+			{
+				wsDocs := []string{
+					"<a><b>x  y</b><b>x y</b><b>x\ty</b><b k=\"x  y\">x\ny</b><b k=\"x y\"> </b><b>  </b></a>",
+					"<a k=\" \"><b>x   y</b><b>x  y</b></a>",
+				}
+				wsExprs := []string{"//b[.='x  y']", "//b[.='x y']", "//b[.='x\ty']", "//b[.='x\ny']", "//b[.=\"x  y\"]", "//b[.='x   y']", "//b[@k='x  y']", "//b[@k='x y']", "//b[.=' ']", "//b[.='  ']", "//*[@k=' ']",
+					"//b[contains(.,'  ')]", "//b[contains(.,'\t')]", "//b[starts-with(.,'x  ')]", "//b[translate(.,'  y','_z')='x__z']", "//b[concat(.,'  ')='x y  ']", "//b[substring-after(.,'  ')='y']", "//b[  .  =  'x  y'  ]", "//b[. = 'x  y' or . = 'x\ty']", "//b [ . = 'x y' ]"}
+				for _, doc := range wsDocs {
+					idx++
+					if !c.Mine(idx) {
+						continue
+					}
+					d, err := c11Load(doc)
+					if err != nil {
+						c.HarnessError("cannot load " + doc + ": " + err.Error())
+						continue
+					}
+					for _, e := range wsExprs {
+						x, err := xpath.Compile(e)
+						if err != nil {
+							continue
+						}
+						for rep := 0; rep < 2; rep++ {
+							for _, ctxPath := range d.paths {
+								cs := c11Case{Doc: doc, Expr: e, Context: ctxPath}
+								c.Begin(func() interface{} { return cs })
+								sig, detail := c11Check(cs, d, x)
+								c.Eval("ws|" + e)
+								if strings.HasPrefix(sig, "harness:") {
+									c.HarnessError(sig + ": " + detail)
+								} else if sig != "" {
+									c.Violation(sig, detail, cs, func() string { s, _ := c11Check(cs, nil, nil); return s })
+								}
+							}
+						}
+					}
+				}
 			}
 			type plan struct{ n, reduced int }
 			plans := []plan{{1, 0}, {2, 0}, {3, 2}}
